@@ -5,9 +5,11 @@ with Model/NudgeRegion.lean, and the property-level checks on the written positi
 `checkRegion` returns findings:
   * `diverge`: the implementation's variables / constraints / loop decisions / write-back differ from
     the model on the same ordered segments (tie broken);
-  * `spec cls`: the positions the implementation wrote violate a consequence the theorems of
-    Props/C10Region.lean derive for the model (`applied_separation_region`): two segments for which the
-    MODEL generates a positive-gap separation constraint end closer than gap − 3e-4.
+  * `spec cls`: the positions the implementation wrote violate the property clause "separated segments are
+    at least the (reduced) distance apart" where the theorems of Props/C10Region.lean
+    (`applied_separation_R`) promise it for the model: two segments for which the MODEL generates a
+    positive-gap separation constraint end closer than gap − 3e-4 (distance, either order; pairs of
+    connectors with a common end point are exempt, as in the property text).
 `checkPass` looks at all regions of one pass (same dimension and stage): segments of different
 regions must not overlap (region formation), and inside a region the order must be consistent with
 the position / fixedOrder / order rules of `CmpLineOrder` for adjacent segments.
@@ -126,7 +128,8 @@ def runUnify (o : ROpts) (tag : String) (vars : List Var) : UState → List DAtt
 /-- tolerance of the separation check on written positions: 2·tol (two clamped ends) + 1e-4 -/
 def sepSlack : Rat := 3 / 10000
 
-def checkRegion (r : DRegion) : RegionOut := Id.run do
+/-- `exempt a b`: connectors `a` and `b` share an end point (the property makes no promise about them) -/
+def checkRegion (r : DRegion) (exempt : Nat → Nat → Bool := fun _ _ => false) : RegionOut := Id.run do
   let o := r.opts
   let tag := s!"region {r.idx} (dim {r.dim}, {if r.ju then "unifying" else "nudging"}, {r.segs.length} segments)"
   let mut out : RegionOut := {}
@@ -166,6 +169,11 @@ def checkRegion (r : DRegion) : RegionOut := Id.run do
         overlapsWith o s p && (!s.fixed || !p.fixed) && !gapOfPre o p s)) then
       return out.div s!"{tag}: UnsignedPair assertion (same connector, common-end lookup) fails in the model but the implementation went on"
     let st0 : NState := ⟨r.base, cons0.map (flat r.segs), []⟩
+    for c in cons0 do
+      out := out.stat (match c with
+        | .sep _ _ g e => if e then "region.con.equality" else if g == 0 then "region.con.zero-gap" else "region.con.separation"
+        | .lower _ _ => "region.con.channel"
+        | .upper _ _ => "region.con.channel")
     out := out.stat s!"region.attempts.{r.atts.length}"
     let (out1, res) := runNudge o tag vars st0 r.atts out
     out := out1
@@ -187,11 +195,15 @@ def checkRegion (r : DRegion) : RegionOut := Id.run do
         for (c, fc) in cons0.zip st.cons do
           match c with
           | .sep j i _ _ =>
-            if 0 < fc.gap then
+            if 0 < fc.gap && exempt (r.segs.getD j default).conn (r.segs.getD i default).conn then
+              out := out.stat "region.sep-exempt-common-end"
+            else if 0 < fc.gap then
               out := out.stat "region.sep-checked"
               let wj := r.wrLow.getD j 0
               let wi := r.wrLow.getD i 0
-              if !(wj + fc.gap - sepSlack ≤ wi) then
+              -- the property promises the DISTANCE (a solver that dropped a constraint of an infeasible cycle may
+              -- legitimately leave the pair in the other order, still `gap` apart)
+              if !(fc.gap - sepSlack ≤ absQ (wi - wj)) then
                 let sj := r.segs.getD j default
                 let si := r.segs.getD i default
                 let msg := s!"{tag}: segments {j} (connector {sj.conn}, extent [{ratToString sj.lo},{ratToString sj.hi}]) and {i} (connector {si.conn}, extent [{ratToString si.lo},{ratToString si.hi}]) overlap, are ordered {j} before {i}, the region was solved with separation {ratToString fc.gap} and applied, but they were written to {ratToString wj} and {ratToString wi}"
